@@ -16,6 +16,7 @@ type instOpts struct {
 	mapSites  []rangeSite
 	selects   bool
 	swap      bool // swap sync / atomic / rand imports (files listed under "instrument")
+	goGates   bool
 	extra     map[string]string
 }
 
@@ -87,6 +88,35 @@ func instrument(name string, src []byte, o instOpts) ([]byte, map[string]int, er
 		} else if nre > 0 {
 			pend := fset.Position(f.Name.End()).Offset
 			edits = append(edits, edit{pend, pend, `; import verifsel "verif/simkit/simsync"`})
+		}
+	}
+	if o.goGates {
+		n := 0
+		ast.Inspect(f, func(nd ast.Node) bool {
+			g, ok := nd.(*ast.GoStmt)
+			if !ok {
+				return true
+			}
+			pos := fset.Position(g.Pos())
+			site := fmt.Sprintf("go:%s:%d", lastElem(name), pos.Line)
+			if fl, ok := g.Call.Fun.(*ast.FuncLit); ok {
+				at := fset.Position(fl.Body.Lbrace).Offset + 1
+				edits = append(edits, edit{at, at, fmt.Sprintf(" verifgo.GoGate(%q);", site)})
+				n++
+			} else if len(g.Call.Args) == 0 && isSimple(g.Call.Fun) {
+				// `go x.run()` -> `go func() { gate; x.run() }()`
+				cs, ce := fset.Position(g.Call.Pos()).Offset, fset.Position(g.Call.End()).Offset
+				edits = append(edits, edit{cs, ce, fmt.Sprintf("func() { verifgo.GoGate(%q); %s }()", site, string(src[cs:ce]))})
+				n++
+			} else {
+				stats["go_stmts_ungated"]++
+			}
+			return true
+		})
+		stats["go_gates"] += n
+		if n > 0 {
+			pend := fset.Position(f.Name.End()).Offset
+			edits = append(edits, edit{pend, pend, `; import verifgo "verif/simkit/simsync"`})
 		}
 	}
 	// count constructs that stay nondeterministic, for the evidence file
